@@ -454,6 +454,10 @@ def _check(prop, tier, seed, args, t0):
             undecided=[u['name'] for u in undecided][:50],
             known_findings=sorted(x for x in seen_kf if x),
             library_models=sorted({m for r in results for m in r.get('models', [])}),
+            slowest_obligations=[dict(obligation=o['name'], solver=o['solver'], time_s=o['time'])
+                                 for o in sorted(obligations, key=lambda o: -o['time'])[:8]],
+            slowest_units=[dict(unit='%s[%s]' % (r['target'], r['cfg']), wall_s=round(r.get('wall_s', 0), 1))
+                           for r in sorted(results, key=lambda r: -r.get('wall_s', 0))[:8]],
             engine_cpython_mismatches=len(engine_mismatch),
             exhaustive=False,
         ),
